@@ -14,6 +14,8 @@ ID = "C15"
 from genf import translate  # noqa: E402,F401  (regenerates lean/PyribsGen/Formulas.lean from the tree under check)
 PROOF_MODULES = ["PyribsProofs.C15", "PyribsProofs.C15b", "PyribsGen.Formulas", "PyribsProofs.GenF"]
 THEOREMS = [
+    "Pyribs.GenFProofs.sliding_clip_from_source",
+    "Pyribs.GenFProofs.sliding_coord_from_source",
     "Pyribs.GenFProofs.boundaries_from_source",
     "Pyribs.C15.insertionSort_sorted",
     "Pyribs.C15.insertionSort_perm",
